@@ -12,6 +12,7 @@ structure CabInst where
   decompbuf : Nat := 4096
   salvage   : Nat := 0
   error     : Nat := 0
+  d         : Option DState := none
 
 inductive Inst
   | cab (c : CabInst)
@@ -19,13 +20,15 @@ inductive Inst
   | dead
 
 inductive Handle
-  | cab (inst : Nat) (fname : String) (c : Cabinet)
+  | cab (inst : Nat) (cid : CabId) (searchNext : Option Nat)
   | dead
 
 structure St where
   files   : List (String × Bytes) := []
   insts   : Array Inst := #[]
   handles : Array Handle := #[]
+  heap    : Heap := {}
+  fill    : UInt8 := 0xa5
 
 abbrev M := StateT St IO
 
@@ -34,22 +37,77 @@ def out (s : String) : M Unit := IO.println s
 def lookupFile (name : String) : M (Option Bytes) := do
   return (← get).files.lookup name
 
-def dumpCab (k : Nat) (c : Cabinet) : M Unit := do
-  out s!"cab h{k} off={c.baseOffset} len={c.length} set={c.setId} idx={c.setIndex} hres={c.headerResv} flags=0x{natHex c.flags} prevname={optHex c.prevname} nextname={optHex c.nextname} previnfo={optHex c.previnfo} nextinfo={optHex c.nextinfo} nfolders={c.folders.length} nfiles={c.files.length}"
-  let mut j := 0
-  for f in c.folders do
-    out s!"folder {j} comp=0x{natHex f.compType} nblocks={f.numBlocks}"
-    j := j + 1
-  j := 0
-  for f in c.files do
-    out s!"file {j} name={optHex (some f.name)} len={f.length} attr=0x{natHex f.attribs} date={f.date_y}/{f.date_m}/{f.date_d} time={f.time_h}:{f.time_m}:{f.time_s} folder={f.folder} off={f.offset}"
-    j := j + 1
+def dumpOne (k : Nat) (cid : CabId) : M Unit := do
+  let h := (← get).heap
+  match h.cab? cid with
+  | none => out s!"cab h{k} dead"
+  | some n =>
+    let c := n.hdr
+    out s!"cab h{k} off={c.baseOffset} len={c.length} set={c.setId} idx={c.setIndex} hres={c.headerResv} flags=0x{natHex c.flags} prevname={optHex c.prevname} nextname={optHex c.nextname} previnfo={optHex c.previnfo} nextinfo={optHex c.nextinfo} nfolders={n.folders.length} nfiles={n.files.length}"
+    let mut j := 0
+    for fid in n.folders do
+      match h.folder? fid with
+      | some f => out s!"folder {j} comp=0x{natHex f.compType} nblocks={f.numBlocks}"
+      | none => out s!"folder {j} dangling"
+      j := j + 1
+    j := 0
+    for fid in n.files do
+      match h.file? fid with
+      | some fn =>
+        let f := fn.data
+        let fj : String := match fn.folder with
+          | some fo => match n.folders.idxOf? fo with
+            | some i => toString i
+            | none => "-1"
+          | none => "-1"
+        out s!"file {j} name={optHex (some f.name)} len={f.length} attr=0x{natHex f.attribs} date={f.date_y}/{f.date_m}/{f.date_d} time={f.time_h}:{f.time_m}:{f.time_s} folder={fj} off={f.offset}"
+      | none => out s!"file {j} dangling"
+      j := j + 1
+
+/-- dump every cabinet reachable through the `search()` result chain from handle `k` -/
+def dumpChain (k : Nat) : M Unit := do
+  let mut cur := some k
+  let mut fuel := (← get).handles.size + 1
+  while fuel > 0 do
+    fuel := fuel - 1
+    match cur with
+    | none => break
+    | some hk =>
+      match (← get).handles[hk]? with
+      | some (.cab _ cid nxt) => dumpOne hk cid; cur := nxt
+      | _ => break
 
 def parseInst (s : String) : Option Nat := if s.startsWith "i" then (s.drop 1).toString.toNat? else none
 def parseHandle (s : String) : Option Nat := if s.startsWith "h" then (s.drop 1).toString.toNat? else none
 
-def setCabErr (i : Nat) (ci : CabInst) (e : Nat) : M Unit :=
-  modify fun s => { s with insts := s.insts.set! i (.cab { ci with error := e }) }
+def setCab (i : Nat) (ci : CabInst) : M Unit :=
+  modify fun s => { s with insts := s.insts.set! i (.cab ci) }
+
+def getCabInst (tok : String) : M (Option (Nat × CabInst)) := do
+  match parseInst tok with
+  | some i => match (← get).insts[i]? with
+    | some (.cab ci) => return some (i, ci)
+    | _ => return none
+  | none => return none
+
+def getCabHandle (tok : String) : M (Option (Nat × CabId × Option Nat)) := do
+  match parseHandle tok with
+  | some k => match (← get).handles[k]? with
+    | some (.cab _ cid nxt) => return some (k, cid, nxt)
+    | _ => return none
+  | none => return none
+
+def errOf (e : Err) : Nat := e.code
+
+def doMerge (op i ha hb : String) : M Unit := do
+  match ← getCabInst i, ← getCabHandle ha, ← getCabHandle hb with
+  | some (i, ci), some (_, ca, _), some (_, cb, _) =>
+    let (l, r) := if op = "append" then (ca, cb) else (cb, ca)
+    let (e, heap) := (← get).heap.merge (some l) (some r)
+    modify fun s => { s with heap := heap }
+    setCab i { ci with error := e.code }
+    out s!"{op} st={e.code} err={e.code}"
+  | _, _, _ => out s!"{op} unsupported"
 
 def doOp (toks : List String) : M Unit := do
   match toks with
@@ -66,7 +124,10 @@ def doOp (toks : List String) : M Unit := do
   | ["fileref", name, path] =>
     let ba ← IO.FS.readBinFile path
     modify fun s => { s with files := (name, ba.toList) :: s.files }
-  | "fill" :: _ => pure ()
+  | ["fill", hh] =>
+    match parseHex hh with
+    | some [b] => modify fun s => { s with fill := b }
+    | _ => out "bad-case"
   | "fault" :: _ => pure ()
   | "trace" :: _ => pure ()
   | "edges" :: _ => pure ()
@@ -78,8 +139,8 @@ def doOp (toks : List String) : M Unit := do
     set { st with insts := st.insts.push inst }
     out s!"new {fmt} i{i}"
   | ["param", i, name, v] =>
-    match parseInst i, (← get).insts[(parseInst i).getD 0]?, v.toInt? with
-    | some i, some (.cab ci), some v =>
+    match ← getCabInst i, v.toInt? with
+    | some (i, ci), some v =>
       let small := v < 4
       let (ci', st) : CabInst × Nat := match name with
         | "SEARCHBUF" => if small then (ci, 1) else ({ ci with searchbuf := v.toNat }, 0)
@@ -87,43 +148,112 @@ def doOp (toks : List String) : M Unit := do
         | "FIXMSZIP" => ({ ci with fixMszip := if v = 0 then 0 else 1 }, 0)
         | "SALVAGE" => ({ ci with salvage := if v = 0 then 0 else 1 }, 0)
         | _ => (ci, 1)
-      modify fun s => { s with insts := s.insts.set! i (.cab ci') }
+      setCab i ci'
       out s!"param st={st}"
-    | _, _, _ => out "param unsupported"
+    | _, _ => out "param unsupported"
   | ["open", i, name] =>
-    match parseInst i, (← get).insts[(parseInst i).getD 0]? with
-    | some i, some (.cab ci) =>
+    match ← getCabInst i with
+    | some (i, ci) =>
       match ← lookupFile name with
-      | none => setCabErr i ci 2; out "open NULL st=2 err=2"
+      | none => setCab i { ci with error := 2 }; out "open NULL st=2 err=2"
       | some bytes =>
         match readHeaders bytes 0 (ci.salvage ≠ 0) with
         | .ok c =>
-          setCabErr i ci 0
+          setCab i { ci with error := 0 }
           let k := (← get).handles.size
-          modify fun s => { s with handles := s.handles.push (.cab i name c) }
+          let (heap, cid) := (← get).heap.addCabinet name c
+          modify fun s => { s with heap := heap, handles := s.handles.push (.cab i cid none) }
           out s!"open h{k} st=0 err=0"
-          dumpCab k c
-        | .error e => setCabErr i ci e.code; out s!"open NULL st={e.code} err={e.code}"
-    | _, _ => out "open unsupported"
+          dumpOne k cid
+        | .error e => setCab i { ci with error := e.code }; out s!"open NULL st={e.code} err={e.code}"
+    | none => out "open unsupported"
   | ["search", i, name] =>
-    match parseInst i, (← get).insts[(parseInst i).getD 0]? with
-    | some i, some (.cab ci) =>
+    match ← getCabInst i with
+    | some (i, ci) =>
       match ← lookupFile name with
-      | none => setCabErr i ci 2; out "search NULL st=2 err=2"
+      | none => setCab i { ci with error := 2 }; out "search NULL st=2 err=2"
       | some bytes =>
         let (cabs, fin) := find ci.searchbuf (ci.salvage ≠ 0) bytes
         if fin = .hang then out "search HANG" else
-        setCabErr i ci 0
+        setCab i { ci with error := 0 }
         if cabs.isEmpty then out "search NULL st=0 err=0" else
         let k := (← get).handles.size
-        for c in cabs do
-          modify fun s => { s with handles := s.handles.push (.cab i name c) }
-        out s!"search h{k}..h{k + cabs.length - 1} st=0 err=0"
         let mut j := k
         for c in cabs do
-          dumpCab j c
+          let (heap, cid) := (← get).heap.addCabinet name c
+          let nxt := if j + 1 < k + cabs.length then some (j + 1) else none
+          modify fun s => { s with heap := heap, handles := s.handles.push (.cab i cid nxt) }
           j := j + 1
-    | _, _ => out "search unsupported"
+        out s!"search h{k}..h{k + cabs.length - 1} st=0 err=0"
+        dumpChain k
+    | none => out "search unsupported"
+  | ["dump", _, hk] =>
+    match ← getCabHandle hk with
+    | some (k, _, _) => out "dump"; dumpChain k
+    | none => out "dump unsupported"
+  | ["append", i, ha, hb] => doMerge "append" i ha hb
+  | ["prepend", i, ha, hb] => doMerge "prepend" i ha hb
+  | ["close", i, hk] =>
+    match ← getCabInst i, ← getCabHandle hk with
+    | some (i, ci), some (k, _, _) =>
+      -- close the handle's cabinet and every cabinet after it in its search() result chain
+      let mut cur := some k
+      let mut ci := { ci with error := 0 }
+      let mut fuel := (← get).handles.size + 1
+      while fuel > 0 do
+        fuel := fuel - 1
+        match cur with
+        | none => break
+        | some hk =>
+          match (← get).handles[hk]? with
+          | some (.cab _ cid nxt) =>
+            let heap := (← get).heap
+            match heap.cab? cid with
+            | some n =>
+              -- a cached decoder on one of the freed folders is dropped
+              match ci.d with
+              | some ds => if n.folders.contains ds.folder then ci := { ci with d := none }
+              | none => pure ()
+              let gone := cid :: (heap.prevChain cid ++ heap.nextChain cid)
+              let heap' := heap.close cid
+              let kill (h : Handle) : Handle := match h with
+                | .cab _ c _ => if gone.contains c then .dead else h
+                | .dead => .dead
+              modify fun s => { s with heap := heap', handles := s.handles.map kill }
+            | none => pure ()
+            cur := nxt
+          | _ => break
+      setCab i ci
+      out "close ok"
+    | _, _ => out "close unsupported"
+  | ["extract", i, hk, idx, outName] =>
+    match ← getCabInst i, ← getCabHandle hk, idx.toNat? with
+    | some (i, ci), some (_, cid, _), some idx =>
+      let st ← get
+      match (st.heap.cab? cid).bind (fun n => n.files[idx]?) with
+      | none => out "extract bad-index"
+      | some fid =>
+        match st.heap.member fid with
+        | none => out "extract bad-handle"
+        | some m =>
+          let p : Params := { bufSize := ci.decompbuf, fixMszip := ci.fixMszip ≠ 0, salvage := ci.salvage ≠ 0, fill := st.fill }
+          match extract st.files p ci.d m with
+          | .unsupported => out "extract unsupported"
+          | .fault f => out s!"extract FAULT {reprStr f}"
+          | .done e written d =>
+            setCab i { ci with error := e.code, d := d }
+            match written with
+            | some w => modify fun s => { s with files := (outName, w) :: s.files.filter (·.1 ≠ outName) }
+            | none => pure ()
+            let digest := match (← get).files.lookup outName with
+              | some b => outDigest b
+              | none => "-"
+            out s!"extract st={e.code} err={e.code} written={(written.getD []).length} declared={m.length} out={digest}"
+    | _, _, _ => out "extract unsupported"
+  | ["destroy", i] =>
+    match ← getCabInst i with
+    | some (i, _) => modify fun s => { s with insts := s.insts.set! i .dead }; out "destroy ok"
+    | none => out "destroy unsupported"
   | ["prim", "cksum", hex, seed] =>
     match parseHex hex, parseNat seed with
     | some bs, some s => out s!"prim cksum {cksum bs s}"
